@@ -3,6 +3,7 @@
 
   tools/seeded.py import <worktree> <id>     copy patch.diff/demo.py/meta.json from <worktree>/_seeded into seeded/<id>/
   tools/seeded.py verify <id>                confirm: patch applies, repository tests pass, demo exits 0 unchanged / !=0 changed
+  tools/seeded.py demos                      run every demo against /repo itself: all must exit 0
   tools/seeded.py check <id> [Cxx ...] [--scale F] [--tier T]   run checks against a scratch copy with the patch applied
 
 Scratch copies live under /tmp and are removed afterwards.  /repo itself is never modified."""
@@ -95,8 +96,25 @@ def cmd_check(sid, props, scale, tier):
     save_meta(sid, m)
 
 
+def cmd_demos():
+    """every demo must exit 0 on the current /repo tree (regression net for the repository's own fix: commits)"""
+    bad = 0
+    for sid in sorted(os.listdir(SEEDED)):
+        demo = os.path.join(SEEDED, sid, 'demo.py')
+        if not os.path.exists(demo):
+            continue
+        r = subprocess.run([PY, demo], env=dict(os.environ, PYTHONPATH='/repo', PYTHONDONTWRITEBYTECODE='1'), capture_output=True, text=True, cwd=tempfile.gettempdir())
+        if r.returncode != 0:
+            bad += 1
+            print('demo fails on the current tree:', sid, (r.stdout + r.stderr)[-300:])
+    print('%d demos failing' % bad)
+    return bad == 0
+
+
 if __name__ == '__main__':
     a = sys.argv[1:]
+    if a[0] == 'demos':
+        sys.exit(0 if cmd_demos() else 1)
     if a[0] == 'import':
         cmd_import(a[1], a[2])
     elif a[0] == 'verify':
